@@ -8,14 +8,11 @@ import UnytProofs.Lemmas.C14Chunk06  -- build order only: at most four chunks ar
 namespace Unyt.C14
 
 /-- every listed name of chunk 10 (four slices of 64 rows) is read by the string route and by the
-    three attribute routes as the independent reference reads it (guard: word-prefixed °C) -/
+    three attribute routes as the independent reference reads it -/
 theorem names_slice_10_0 : namesSliceOk 10 0 = true := by decide +kernel
 theorem names_slice_10_1 : namesSliceOk 10 1 = true := by decide +kernel
 theorem names_slice_10_2 : namesSliceOk 10 2 = true := by decide +kernel
 theorem names_slice_10_3 : namesSliceOk 10 3 = true := by decide +kernel
-
-/-- every excluded name of chunk 10 really is unusable as a unit string -/
-theorem exclusions_chunk_10 : exclusionsChunkOk 10 = true := by decide +kernel
 
 /-- prefix spellings 3·10 … 3·10+2 (symbols, then word forms) are rejected on every
     non-prefixable spelling (three slices of 110 spelling rows) -/
